@@ -1,6 +1,7 @@
 CONSTANTS
   LitPlusSet = {TRUE, FALSE}
   Utf8Set = {TRUE, FALSE}
+  SaslSet = {TRUE, FALSE}
 INIT TraceInit
 NEXT TraceNext
 INVARIANTS TypeOK ContOnlyWhenWilling PayloadOnlyAsArgument
